@@ -145,3 +145,11 @@ class VBadEq:
 
     def __hash__(self):
         return 7
+
+
+class VNestedOperation(FloatOperation):
+    """Multiply by gain; `opts` is a nested mapping parameter (identity at depth > 1)."""
+
+    def _process_logic(self, data, gain: float = 1.0, opts: dict = None):
+        CALL_LOG.append(("VNestedOperation", data.data, gain))
+        return FloatDataType(data.data * gain)
